@@ -129,18 +129,24 @@ pub fn pending_scenario(focus: Vec<u8>) -> BoxedStrategy<Vec<TOp>> {
         any::<u32>(),
         any::<u32>(),
         any::<bool>(),
-        proptest::collection::vec((0u8..16, any::<bool>(), proptest::option::of(any::<bool>())), 0..4),
+        // status reports for stored nodes (patterns 0..15), the waiting node (16) and a newcomer (17)
+        proptest::collection::vec((prop_oneof![6 => 0u8..16, 2 => Just(16u8), 1 => Just(17u8)], any::<bool>(), proptest::option::of(any::<bool>())), 0..4),
+        // a second candidate for the occupied pending slot
+        proptest::option::of((any::<bool>(), any::<bool>())),
         proptest::option::of(0u8..NPATTERNS),
         proptest::option::of((0u8..NPATTERNS, any::<bool>(), any::<bool>())),
         any::<bool>(),
     )
-        .prop_map(|(bucket, conn, inc, pend_incoming, status_ops, remove, reinsert, expire)| {
+        .prop_map(|(bucket, conn, inc, pend_incoming, status_ops, second, remove, reinsert, expire)| {
             let key = |pat: u8| KeyRef::Rel(RelKey { bucket, pat });
             // front node (pattern 0) disconnected so that a pending slot can be taken
             let mut v = vec![TOp::Fill { bucket, n: 16, conn: conn & !1, inc }];
             v.push(TOp::InsertOrUpdate { key: key(16), value: 1, connected: true, incoming: pend_incoming });
             for (pat, connected, direction) in status_ops {
                 v.push(TOp::UpdateStatus { key: key(pat), connected, direction });
+            }
+            if let Some((connected, incoming)) = second {
+                v.push(TOp::InsertOrUpdate { key: key(17), value: 3, connected, incoming });
             }
             if let Some(pat) = remove {
                 v.push(TOp::Remove { key: key(pat) });
@@ -183,6 +189,8 @@ pub struct ONode {
 pub struct OBucket {
     pub nodes: Vec<ONode>,
     pub pending: Option<ONode>,
+    /// the instant at which the pending node becomes eligible (read through a guarded accessor)
+    pub pending_deadline: Option<std::time::Instant>,
 }
 
 pub type Snapshot = Vec<OBucket>; // 256 buckets
@@ -211,6 +219,7 @@ pub fn observe(t: &Table) -> Snapshot {
                 connected: p.status().is_connected(),
                 incoming: p.status().is_incoming(),
             }),
+            pending_deadline: b.pending().map(|p| p.verif_replace_at()),
         })
         .collect()
 }
